@@ -78,7 +78,7 @@ def first_id(xml):
 
 
 def run(ctx):
-    pr = core.prove("C11", extra_modules=["MC.Props.C11Undo"])
+    pr = core.prove("C11", extra_modules=["MC.Props.C11Undo", "MC.Props.C11Markers"])
     core.proof_coverage(ctx, pr, "lake build MC.Props.C11 && lake env lean build/audit_C11.lean (#print axioms)",
                         ["modelled, not verified: NavigationState, reset/reset_for_new_mathml, set_navigation_node_from_id, do_navigate_command_string, apply_navigation_rules, "
                          "pop_stack transcribed by hand (MC.Model.Nav)",
@@ -86,7 +86,10 @@ def run(ctx):
                          "errors in the middle of a command: the model returns no state for them; the run re-synchronises from the real state (H1)",
                          "fourth clause (undo): move_no_retry / move_one_retry / move_two_retries (MC/Props/C11Undo.lean) -- a Move*/Zoom* command that needed 0, 1 or 2 retries leaves exactly "
                          "ONE new entry (the node it rests on) on the position and command stacks; undo_starts_before_move -- MoveLastLocation pops it before the rules are asked, so they start from "
-                         "the node that was current before the move. What the rules then answer is an environment parameter; the undo oracle decides that on the implementation"])
+                         "the node that was current before the move. What the rules then answer is an environment parameter; the undo oracle decides that on the implementation",
+                         "third clause (markers): command_keeps_markers / setNode_keeps_markers / markers_survive (MC/Props/C11Markers.lean) -- no command other than SetPlacemarker..., whatever "
+                         "the rules answer on any try, and no set_navigation_node changes a place marker, over any history on the same expression; set_marker_stores -- SetPlacemarkerK stores "
+                         "the rules' NavNode in marker K only. That MoveToK then goes there is the rules' business; the marker oracle decides it on the implementation"])
     core.need_harness(ctx)
     core.need_driver(ctx)
     im, mo = core.impl(), core.model()
